@@ -51,6 +51,7 @@ type crashCtl struct {
 	wantFiles bool // C22: also recover every clone read-only and record the recovered version's tables
 	disabled  bool
 	jitter, inflight, passed atomic.Int64
+	holdFlush                atomic.Bool // burst steps: hold back background table creation
 	durN         int // C13: durable-only reads taken (rotates the way the iterator is obtained)
 	fmvlo, fmvhi int // C40: format major version bounds a recovered store must respect
 }
@@ -80,6 +81,15 @@ func (c *crashCtl) injector() errorfs.Injector {
 	return errorfs.InjectorFunc(func(op errorfs.Op) error {
 		if !op.Kind.IsWrite() || c.disabled {
 			return nil
+		}
+		if c.holdFlush.Load() && op.Kind == errorfs.OpCreate && strings.HasSuffix(op.Path, ".sst") &&
+			!strings.HasPrefix(filepath.Base(op.Path), "ext-") {
+			// a background job's output table is held back while the client builds up a queue of
+			// flushable ingests (bounded: the client may itself be waiting for this flush)
+			deadline := time.Now().Add(400 * time.Millisecond)
+			for c.holdFlush.Load() && time.Now().Before(deadline) {
+				time.Sleep(200 * time.Microsecond)
+			}
 		}
 		c.inflight.Add(1)
 		c.before(op)
@@ -509,13 +519,14 @@ type crashProfile struct {
 	finding   bool // allow direct-to-LSM ingest/excise while earlier commits are not durable
 	flushOnly bool // make earlier commits durable by Flush only (C13: the durable-only view ignores memtables)
 	reopenPct int  // continue from a crash clone
+	burstPct  int  // several ingestions back to back over a non-empty memtable (flushable ingests pending together)
 	concPct   int  // a direct ingest issued while a flush runs (two jobs creating and syncing objects at once)
 }
 
 func crashProfiles() map[string]crashProfile {
 	return map[string]crashProfile{
-		"C10": {name: "C10", syncPct: 45, flushPct: 10, ingestPct: 6, excisePct: 3, compactPct: 6, bigPct: 6, reopenPct: 3, concPct: 8},
-		"C11": {name: "C11", syncPct: 25, flushPct: 8, ingestPct: 6, excisePct: 3, compactPct: 6, bigPct: 14, reopenPct: 5},
+		"C10": {name: "C10", syncPct: 45, flushPct: 10, ingestPct: 6, excisePct: 3, compactPct: 6, bigPct: 6, reopenPct: 3, concPct: 8, burstPct: 6},
+		"C11": {name: "C11", syncPct: 25, flushPct: 8, ingestPct: 6, excisePct: 3, compactPct: 6, bigPct: 14, reopenPct: 5, burstPct: 6},
 		"C11F": {name: "C11F", syncPct: 25, flushPct: 4, ingestPct: 14, excisePct: 6, compactPct: 4, bigPct: 4, finding: true},
 		"C12": {name: "C12", syncPct: 0, flushPct: 20, ingestPct: 0, excisePct: 0, compactPct: 8, bigPct: 8, reopenPct: 3, concPct: 10},
 		"C13": {name: "C13", syncPct: 20, flushPct: 14, ingestPct: 5, excisePct: 2, compactPct: 6, bigPct: 6, flushOnly: true},
@@ -614,6 +625,33 @@ func runCrash(u Univ, cfg Config, cp crashProfile, seed uint64, steps int, path 
 				r.Exec(Ev{"op": "excise", "a": a, "b": b})
 				g.trackExcise(a, b)
 				winLen++
+			case x >= 100-cp.concPct-cp.burstPct && x < 100-cp.concPct:
+				// a burst of ingestions over a busy memtable: with a WAL each one that overlaps the
+				// memtable is queued as a flushable ingest (recorded in its own WAL), so a crash can
+				// find several of them pending at once
+				if needDurable() {
+					makeDurable()
+				}
+				touched := map[int]bool{}
+				ops := []Ev{g.writeOp(false, touched), g.writeOp(false, touched), g.writeOp(false, touched)}
+				sync := !cfg.DisableWAL
+				r.Exec(Ev{"op": "commit", "ops": ops, "sync": sync})
+				g.track(ops)
+				winLen++
+				if !sync {
+					flush()
+				}
+				c.holdFlush.Store(true)
+				for j := 0; j < 2+rng.IntN(2) && r.Fatal == nil; j++ {
+					tables, flat := g.ingestTables()
+					r.Exec(Ev{"op": "ingest", "tables": tables, "ops": flat})
+					g.track(flat)
+					winLen++
+				}
+				c.holdFlush.Store(false)
+				if winLen >= 9 {
+					flush()
+				}
 			case x >= 100-cp.concPct:
 				// two jobs at once: a flush running in the background while the client ingests a table
 				// on other keys (both create objects and sync the directory)
@@ -788,11 +826,11 @@ func TestCrash(t *testing.T) {
 func crashConfigs() map[string]Config {
 	m := map[string]Config{}
 	add := func(c Config) { m[c.Name] = c }
-	add(Config{Name: "crash1", FMV: pebble.FormatNewest, MemTableSize: 64 << 10, L0Threshold: 2, SmallFiles: true,
+	add(Config{Name: "crash1", FMV: pebble.FormatNewest, MemTableSize: 64 << 10, L0Threshold: 2, SmallFiles: true, MemStop: 6,
 		AutoCompact: true, ValSizes: []int{0, 0, 500, 0, 9000, 0, 20000}, ManifestSize: 300})
 	add(Config{Name: "crash2", FMV: pebble.FormatNewest, MemTableSize: 64 << 10, L0Threshold: 4, SmallFiles: true,
 		AutoCompact: false, ValSizes: []int{0, 100, 0, 12000}, ManifestSize: 1 << 20})
-	add(Config{Name: "crashvs", FMV: pebble.FormatNewest, MemTableSize: 64 << 10, L0Threshold: 2, SmallFiles: true,
+	add(Config{Name: "crashvs", FMV: pebble.FormatNewest, MemTableSize: 64 << 10, L0Threshold: 2, SmallFiles: true, MemStop: 6,
 		AutoCompact: true, ValueSep: true, ValSizes: []int{0, 40, 0, 600, 3, 5000}, ManifestSize: 500})
 	add(Config{Name: "crashold", FMV: pebble.FormatMinSupported, MemTableSize: 64 << 10, L0Threshold: 2, SmallFiles: true,
 		AutoCompact: true, ValSizes: []int{0, 0, 500, 9000}, ManifestSize: 300})
